@@ -339,6 +339,7 @@ type joseState struct {
 	pay         map[string]*josePayload
 	sig         map[string]*joseSig
 	toks        map[*value]*joseTok
+	oct         map[string]*joseKeyMark // HMAC secrets by (concrete) content
 }
 
 func (m *Machine) jose() *joseState {
@@ -481,7 +482,7 @@ func (i *interpreter) verifKey(fr *frame, key iface, tok *joseTok) (*joseKeyMark
 			}
 			key, _ = keys[0].(structure)[fieldIndex(i.namedType(josePkg, "JSONWebKey"), "Key")].(iface)
 		case "[]byte":
-			panic(unmodelled{"JWT model: verification with an HMAC secret"})
+			return i.octMark(key.v), ""
 		default:
 			return nil, errJoseUnsupportedKey
 		}
@@ -534,7 +535,29 @@ func algAcceptedByVerifier(alg, kind string) bool {
 	if isECKind(kind) {
 		return isECKind(f)
 	}
+	if kind == "oct" {
+		return f == "oct" // an HMAC secret verifies HS* (and nothing else)
+	}
 	return false
+}
+
+// octMark: the identity of an HMAC secret is its (concrete) content.
+func (i *interpreter) octMark(v value) *joseKeyMark {
+	b, ok := concreteBytes(v)
+	if !ok {
+		panic(unmodelled{"JWT model: symbolic HMAC secret"})
+	}
+	st := i.m.jose()
+	if st.oct == nil {
+		st.oct = map[string]*joseKeyMark{}
+	}
+	if mk := st.oct[string(b)]; mk != nil {
+		return mk
+	}
+	st.nkey++
+	mk := &joseKeyMark{id: st.nkey, kind: "oct"}
+	st.oct[string(b)] = mk
+	return mk
 }
 
 func concreteAlg(j *jval) string {
@@ -958,9 +981,7 @@ func init() {
 		case "nil":
 			signed = false
 		case "[]byte":
-			st := i.m.jose()
-			st.nkey++
-			mk = &joseKeyMark{id: st.nkey, kind: "oct"}
+			mk = i.octMark(key.v)
 			fits = algFitsKey(alg, "oct")
 		case "*crypto/rsa.PrivateKey", "*crypto/ecdsa.PrivateKey":
 			ps, ok := derefStruct(key.v)
